@@ -209,6 +209,7 @@ fn fault_run<Q: Queue>(case: &Case, stats: &mut Stats) -> Result<bool, Failure> 
                             after_special: false,
                             force_drain: false,
                             trace: None,
+                            snapshot: None,
                         };
                         start_tick_count();
                         let _ = guarded_apply(&mut c, inner);
@@ -238,6 +239,7 @@ fn fault_run<Q: Queue>(case: &Case, stats: &mut Stats) -> Result<bool, Failure> 
                                 after_special: false,
                                 force_drain: false,
                                 trace: None,
+                                snapshot: None,
                             };
                             arm_fuse(*kind, kk);
                             guarded_apply(&mut c, inner);
